@@ -35,7 +35,9 @@ type NoiseSide struct {
 	AuthCB   []byte
 	AuthCBn  int
 	RemoteCB *btcec.PublicKey
-	RemoteN  int
+	// FailRemoteCB makes the next calls of the remote-key callback fail.
+	FailRemoteCB int
+	RemoteN      int
 }
 
 // HSConfig describes a handshake experiment.
@@ -62,6 +64,9 @@ type HSConfig struct {
 	// construction of the Machine. The passphrase pattern must behave as
 	// always: both fields of BrontideMachineConfig are inputs.
 	StaleRemoteC, StaleRemoteS *btcec.PublicKey
+	// FailRemoteCBC / FailRemoteCBS: how often the remote-key callback of
+	// the client / server fails (the application could not persist the key).
+	FailRemoteCBC, FailRemoteCBS int
 	// EphSeed, if non-zero, makes both machines draw their ephemeral keys
 	// from a PRNG seeded with it, so that a session can be reproduced
 	// bit for bit.
@@ -80,7 +85,15 @@ func newSide(key keychain.SingleKeyECDH, remote *btcec.PublicKey, pass, auth []b
 		s.Key = k
 	}
 	s.CD = mailbox.NewConnData(key, remote, pass, auth,
-		func(k *btcec.PublicKey) error { s.RemoteCB = k; s.RemoteN++; return nil },
+		func(k *btcec.PublicKey) error {
+			if s.FailRemoteCB > 0 {
+				s.FailRemoteCB--
+				return fmt.Errorf("remote key could not be persisted (injected)")
+			}
+			s.RemoteCB = k
+			s.RemoteN++
+			return nil
+		},
 		func(d []byte) error { s.AuthCB = append([]byte{}, d...); s.AuthCBn++; return nil },
 	)
 	return s
@@ -114,6 +127,7 @@ func RunHandshake(cfg HSConfig) *HSResult {
 	c := newSide(ckey, remC, cfg.PassC, nil)
 	s := newSide(cfg.KeyS, remS, cfg.PassS, cfg.Auth)
 	res := &HSResult{C: c, S: s}
+	c.FailRemoteCB, s.FailRemoteCB = cfg.FailRemoteCBC, cfg.FailRemoteCBS
 	if !forceC {
 		patC = c.CD.HandshakePattern()
 	}
